@@ -30,12 +30,13 @@ def build(shape, dims, fill, spectra, order, dtype):
     return da
 
 
-def aux(shape, dims, fill):
-    """wind speed / direction / depth per position, determined by the spectrum id at that position (its own wind)."""
+def aux(shape, dims, fill, dry=False):
+    """wind speed / direction / depth per position, determined by the spectrum id at that position (its own wind).
+    dry: positions holding spectrum 3 are dry points (depth 0): whatever happens there must stay there."""
     import xarray as xr
     w = np.array([6.0 + 5 * c for c in fill]).reshape(shape)
     wd = np.array([30.0 * c * c for c in fill]).reshape(shape)
-    dp = np.array([15.0 * 10 ** c for c in fill]).reshape(shape)
+    dp = np.array([(0.0 if (dry and c == 3) else 15.0 * 10 ** c) for c in fill]).reshape(shape)
     mk = lambda a: xr.DataArray(a, coords={d: np.arange(s) for d, s in zip(dims, shape)}, dims=tuple(dims))  # noqa
     return mk(w), mk(wd), mk(dp)
 
@@ -99,7 +100,8 @@ def run(ctx):
             order = "lead_first"
         da0 = build(shape, dims, v["before"], spectra, order, dtype)
         da1 = build(shape, dims, v["after"], spectra, order, dtype)
-        w0, w1 = aux(shape, dims, v["before"]), aux(shape, dims, v["after"])
+        dry = iv % 4 == 3
+        w0, w1 = aux(shape, dims, v["before"], dry), aux(shape, dims, v["after"], dry)
         idxs = list(np.ndindex(*shape))
         pe = v["edited"] - 1
         ops = OPS if not ctx.quick else [op for op in OPS if hash((op, tuple(v["before"]), ctx.seed)) % 2 == 0 or op in ("ptm1", "ptm3", "hs", "tp", "smooth33")]
